@@ -209,8 +209,7 @@ def classify_sanitizer(text):
     for rx, kind, alias in SAN_PATTERNS:
         m = rx.search(text)
         if m:
-            s = max(0, m.start() - 200)
-            found.append((kind, alias, text[s:m.start() + 1800]))
+            found.append((kind, alias, text[m.start():m.start() + 2200]))
             break
     return found
 
